@@ -31,6 +31,8 @@ CHECKS = {
              note="trusted: validator verdicts are stubs (C11, C12 decide them), byte-level decoding, insert_outpoints (C20); real blocks (valid, duplicate, orphan, garbage, truncated, bad merkle root) are run through the real heartbeat natively"),
  'C08': dict(text="symbolic execution of UtxoSet::ingest_block / ingest_block_continue and everything below them, with every slicing-predicate call after the first of a round a nondeterministic choice (all pause-position sets of each block shape) and symbolic amounts: after every round the API-level readers (address UTXO sequence as get_utxos builds it, get_balance, get_utxo of address outputs, utxos_length) equal the pre-ingestion answers, resume positions increase, the final maps equal those of an unsliced run on the same path, ingestion finishes; heartbeat gating on Paused / Done(true)",
              note="trusted: ledger model (struct-level stable maps, injective ids, scripts as address names); block shapes are a fixed list (4 quick / 8 thorough); the same shapes are run through the real canister with forced pauses; known finding F11 (utxos_length) is listed"),
+ 'C20': dict(text="symbolic execution of UnstableBlocks::new / push / pop / insert_outpoints / OutPointsCache::remove / block-tree cache handling and ingest_stable_blocks_into_utxoset (with the real UTXO ingestion) on histories of transaction-carrying blocks (forks sharing transactions, outputs spent across forks, same-block spends, conflicting spends), blocks arriving one by one with an ingestion opportunity after each: block cache, per-block delta maps, output reference counts and cached tip depths equal exactly what the tree requires after every step, and no step traps",
+             note="trusted: ledger model; histories = 4 handcrafted x 2 thresholds + seeded samples per tree shape (amounts symbolic); the same histories are replayed natively and the bookkeeping read back through the cfg-guarded hook after every step"),
 }
 NA = {
 }
@@ -40,7 +42,7 @@ m = {
  "setup_cmd": "./setup.sh",
  "hooks": {"guard": "dfinity_bitcoin_canister_verif",
            "enable": "RUSTFLAGS='--cfg dfinity_bitcoin_canister_verif' for the native replay crate only (runtime::verif_hooks: mocked cycles API and performance counter control); the MIR is always dumped with the guard off",
-           "baseline_off_cmd": "cd /repo && cargo test --workspace --no-fail-fast --offline", "source_commits": ["3049359b", "0ef99e05", "26284dd7"], "add_only": True},
+           "baseline_off_cmd": "cd /repo && cargo test --workspace --no-fail-fast --offline", "source_commits": ["3049359b", "0ef99e05", "26284dd7", "7c39898f"], "add_only": True},
  "engines": [
   {"name": "mirsym", "path": "mirsym/", "serves_properties": sorted(CHECKS), "kind_free_text": "symbolic execution of rustc MIR (regenerated from /repo on every run) with z3; heap shapes enumerated, scalars symbolic"},
   {"name": "replay", "path": "replay/", "serves_properties": sorted(CHECKS), "kind_free_text": "native Rust driver over the real canister code: translator validation and counterexample replay"}],
